@@ -714,3 +714,44 @@ Proof.
   - lia.
   - intros HP. vm_compute in HP. apply Permutation_length_1 in HP. discriminate.
 Qed.
+
+(* non-vacuity of the premise NoPadTie: the F6 column with a single peak has no tie *)
+Lemma toy_no_tie : NoPadTie 0%Z Toy.apos Toy.agt Toy.zf Toy.P (Toy.mkpads (Toy.peak 11 100)).
+Proof.
+  assert (Fin : forall c t, (c <? 32)%nat = true -> (t <? 3)%nat = true ->
+                NoDup (map snd (pad_hits_at_t 0%Z Toy.apos Toy.agt Toy.zf
+                  (pad_inputs_column Toy.P (nth c (Toy.mkpads (Toy.peak 11 100)) [])) t))).
+  { assert (B : forallb (fun c => forallb (fun t =>
+        match map snd (pad_hits_at_t 0%Z Toy.apos Toy.agt Toy.zf
+                (pad_inputs_column Toy.P (nth c (Toy.mkpads (Toy.peak 11 100)) [])) t) with
+        | [] | [_] => true | _ => false end) (seq 0 3)) (seq 0 32) = true) by (vm_compute; reflexivity).
+    intros c t Hc Ht. rewrite forallb_forall in B.
+    assert (Hc' : In c (seq 0 32)) by (apply in_seq; apply Nat.ltb_lt in Hc; lia).
+    specialize (B c Hc'). rewrite forallb_forall in B.
+    assert (Ht' : In t (seq 0 3)) by (apply in_seq; apply Nat.ltb_lt in Ht; lia).
+    specialize (B t Ht').
+    destruct (map snd _) as [|x [|y l]]; try discriminate; repeat constructor; intros []. }
+  intros c t.
+  destruct (c <? 32)%nat eqn:Hc.
+  2:{ rewrite nth_overflow. constructor.
+      unfold Toy.mkpads. rewrite map_length, Nseq_length. apply Nat.ltb_ge in Hc. unfold NCOLS. lia. }
+  destruct (t <? 3)%nat eqn:Ht. now apply Fin.
+  (* beyond the last sample every amplitude reads 0.0: same as time bin 2 *)
+  apply Nat.ltb_ge in Ht.
+  replace (pad_hits_at_t 0%Z Toy.apos Toy.agt Toy.zf
+             (pad_inputs_column Toy.P (nth c (Toy.mkpads (Toy.peak 11 100)) [])) t)
+    with (pad_hits_at_t 0%Z Toy.apos Toy.agt Toy.zf
+             (pad_inputs_column Toy.P (nth c (Toy.mkpads (Toy.peak 11 100)) [])) 2).
+  apply Fin; auto.
+  rewrite !(pad_hits_win 0%Z Toy.apos Toy.agt Toy.zf Z.opp Toy.zf_antisym Toy.agt_total). f_equal. apply map_ext_in.
+  intros input Hin. unfold pad_inputs_column in Hin. apply in_map_iff in Hin as (o & <- & Ho).
+  unfold Toy.mkpads in Ho.
+  assert (Hlen : (length (match o with Some signal => Toy.P signal | None => [] end) <= 2)%nat).
+  { destruct (Nat.lt_ge_cases c (length (map (fun c0 => map (Toy.peak 11 100 c0) (Nseq 0 NROWS)) (Nseq 0 NCOLS)))) as [L|L].
+    - rewrite (nth_indep _ [] (map (Toy.peak 11 100 0) (Nseq 0 NROWS))) in Ho by auto.
+      rewrite (map_nth (fun c0 => map (Toy.peak 11 100 c0) (Nseq 0 NROWS))) in Ho.
+      apply in_map_iff in Ho as (r & <- & _). unfold Toy.peak, Toy.P.
+      repeat case_if; cbn; lia.
+    - rewrite nth_overflow in Ho by auto. destruct Ho. }
+  unfold at_t. rewrite !(proj2 (nth_error_None _ _)) by lia. reflexivity.
+Qed.
